@@ -13,6 +13,10 @@ import PyrollModel.Proto
       within <prec> <cur> <old>   → 1 | 0      the generated element-wise comparison over Float
       consts                      → <default precision> <default max iterations> <budget of 100> <allQ> <reusesOut>
       sub <o|e,…>                 → <sub-units entered> <ok|RuntimeError>     (`_solve_subunits`; `-` = none)
+      handover <roots> <out> <tmpl> → <entries>   public entries of the out profile after `init_solve`
+          <roots>   = name,name,… (`-` = none)      names of the root hooks of the out profile's class
+          <out>     = `N` (no out profile yet) | entries      <tmpl> = entries of the incoming profile
+          entries   = name=value,name=value,… (`-` = none; values are naturals = identities)
 -/
 namespace SolveDriver
 open Proto Solve
@@ -47,6 +51,15 @@ def item? (s : String) : Option (Except Exc (List Float)) :=
 def script? (s : String) : Option (List (Except Exc (List Float))) :=
   if s = "." then some [] else (s.splitOn ";").mapM item?
 
+def entries? (s : String) : Option Entries :=
+  if s = "-" then some [] else (s.splitOn ",").mapM fun t =>
+    match t.splitOn "=" with
+    | [k, v] => v.toNat?.map fun n => (k, n)
+    | _ => none
+
+def showEntries (e : Entries) : String :=
+  if e.isEmpty then "-" else ",".intercalate (e.map fun x => s!"{x.1}={x.2}")
+
 /-- playing back a recorded solve: the state is the number of items consumed -/
 def playback (script : List (Except Exc (List Float))) (k : Nat) : Nat × Except Exc (List Float) :=
   (k + 1, match script[k]? with
@@ -75,6 +88,11 @@ def handle (line : String) : String :=
   | ["consts"] =>
     s!"{floatToBitsStr (SolveGen.defaultPrec : Float)} {SolveGen.defaultMaxIter} {SolveGen.budget 100} " ++
       s!"{if SolveGen.allQ then 1 else 0} {if SolveGen.reusesOut then 1 else 0}"
+  | ["handover", roots, out, tmpl] =>
+    let rs := if roots = "-" then [] else roots.splitOn ","
+    match (if out = "N" then some none else (entries? out).map some), entries? tmpl with
+    | some o, some t => showEntries (SolveGen.initOut rs o t)
+    | _, _ => "bad-op"
   | ["sub", outcomes] =>
     let os := if outcomes = "-" then [] else outcomes.splitOn ","
     let subs : List (Nat → Nat × Except Exc Unit) :=
